@@ -25,6 +25,12 @@ def splitOnC (s : String) (c : String) : List String :=
 
 def natList (s : String) : List Nat := (splitOnC s ",").map natOr
 
+/-- a read batch: split ids in emission order, `a*n` = `n` records of split `a` -/
+def batchList (s : String) : List Nat :=
+  (splitOnC s ",").flatMap fun x => match x.splitOn "*" with
+    | [a, n] => List.replicate (natOr n) (natOr a)
+    | _ => [natOr x]
+
 /-- `a=b,c=d` or `a@b,c@d` -/
 def pairList (sep : String) (s : String) : List (Nat × Nat) :=
   (splitOnC s ",").map fun p => match p.splitOn sep with
@@ -90,7 +96,16 @@ def kstep (k : KSt) (a : Act) (withLost : Bool := true) : KSt × String :=
   ({ k with impl := i', spec := s' },
    both (showCalls i'.runners ci ++ " ; " ++ chk withLost i') (showCalls s'.runners cs ++ " ; " ++ chk withLost s'))
 
-def showIdx (l : List Nat) : String := if l.isEmpty then "-" else joinWith "." ((sortNat l).map toString)
+/-- maximal runs of a sorted list, `a-b` -/
+def runsOf : List Nat → Option (Nat × Nat) → List String
+  | [], none => []
+  | [], some (a, b) => [if a == b then toString a else s!"{a}-{b}"]
+  | x :: xs, none => runsOf xs (some (x, x))
+  | x :: xs, some (a, b) =>
+    if x == b + 1 then runsOf xs (some (a, x))
+    else (if a == b then toString a else s!"{a}-{b}") :: runsOf xs (some (x, x))
+
+def showIdx (l : List Nat) : String := if l.isEmpty then "-" else joinWith "." (runsOf (sortNat l) none)
 
 def showBarrier (r : RSt) : String :=
   match r.reports.getLast? with
@@ -127,11 +142,14 @@ def stepKin (k : KSt) (ws : List String) : KSt × String :=
 def stepCut (r : RSt) : List String → RSt × String
   | ["assign", l] => (rstep r (.assign (pairList "@" l)), "ok")
   | ["read", b] =>
-    let r' := rstep r (.read (natList b))
+    let r' := rstep r (.read (batchList b))
     (r', s!"n={r'.out.length - r.out.length}")
   | ["barrier", n] => let r' := rstep r (.barrier (natOr n)); (r', showBarrier r')
-  | ["readbar1", n, b] => let r' := rstep (rstep r (.read (natList b))) (.barrier (natOr n)); (r', showBarrier r')
-  | ["readbar2", n, b] => let r' := rstep (rstep r (.read (natList b))) (.barrier (natOr n)); (r', showBarrier r')
+  -- a checkpoint request arriving while a read is under way (before / after the cursors move, or while the read's
+  -- records are being emitted): the read is one atomic action of the loop (C16.read_is_atomic), the barrier follows it
+  | ["readbar1", n, b] => let r' := rstep (rstep r (.read (batchList b))) (.barrier (natOr n)); (r', showBarrier r')
+  | ["readbar2", n, b] => let r' := rstep (rstep r (.read (batchList b))) (.barrier (natOr n)); (r', showBarrier r')
+  | ["readbar3", n, _, b] => let r' := rstep (rstep r (.read (batchList b))) (.barrier (natOr n)); (r', showBarrier r')
   | ["end"] => (r, "ok")   -- spec: C16.cursor_matches_cut for every report
   | _ => (r, "bad-op")
 
